@@ -9,9 +9,45 @@ from . import dsm
 EXTRA_NAMES = {"p": "Product", "q": "Quality", "r": "Region"}
 
 
-def make_dims(grid, extra, time_letter="t", dtype=int):
+_DECOYED = set()
+
+
+def decoy_grid_prelude(grid):
+    """once per process and grid: a stock over a DECOY time dimension - same name, letter, number of items, first and
+    last item, but the gaps in reverse order - is built and computed first (nothing may be remembered per
+    'time dimension that looks the same')"""
+    g = tuple(grid)
+    if g in _DECOYED or len(g) < 4:
+        return
+    _DECOYED.add(g)
+    gaps = [b - a for a, b in zip(g[:-1], g[1:])]
+    if gaps == gaps[::-1]:
+        return
+    dg = [g[0]]
+    for d in reversed(gaps):
+        dg.append(dg[-1] + d)
+    try:
+        import flodym
+
+        dims = make_dims(tuple(dg), [], _decoy=True)
+        s = flodym.SimpleFlowDrivenStock(dims=dims)
+        s.inflow.values[...] = 2.0
+        s.outflow.values[...] = 1.0
+        s.compute()
+        lm = flodym.NormalLifetime(dims=dims, mean=2.0, std=1.0)
+        d = flodym.InflowDrivenDSM(dims=dims, lifetime_model=lm)
+        d.inflow.values[...] = 1.0
+        d.compute()
+    except Exception:
+        pass
+
+
+def make_dims(grid, extra, time_letter="t", dtype=int, _decoy=False):
     """extra: list of (letter, n_items).  Time first."""
     from flodym import Dimension, DimensionSet
+
+    if not _decoy:
+        decoy_grid_prelude(grid)
 
     if any(float(x) != int(x) for x in grid):  # sub-annual grid: float time items
         dtype = float
